@@ -197,9 +197,7 @@ func newBEnv(cfgLine []string) (*bEnv, error) {
 		mb, _ := strconv.Atoi(kind[2])
 		e.kafkaMethod = kind[3]
 		e.isKafka = true
-		f = kafka.NewBatchFactory(map[string]interface{}{
-			kafka.ConfVarKafkaTopic: "topic", kafka.ConfVarKafkaMaxMessageBytes: mb,
-			kafka.ConfVarKafkaBatchSize: n, kafka.ConfVarKafkaPartitionMethod: e.kafkaMethod})
+		f = kafka.NewBatchFactory(kafkaTransportConfig("topic", mb, n, 262144, e.kafkaMethod))
 	default:
 		return nil, fmt.Errorf("bad kind")
 	}
